@@ -189,6 +189,21 @@ func evalConc(t *Term, v int64) (int64, bool) {
 			return xs[1], true
 		}
 		return xs[2], true
+	case "div", "mod":
+		// SMT-LIB semantics for a positive divisor: floor division, 0 <= mod < d
+		if xs[1] <= 0 {
+			return 0, false
+		}
+		q := xs[0] / xs[1]
+		r := xs[0] % xs[1]
+		if r < 0 {
+			r += xs[1]
+			q--
+		}
+		if t.op == "div" {
+			return q, true
+		}
+		return r, true
 	}
 	return 0, false
 }
